@@ -135,21 +135,34 @@ def check(case, ctx):
                     fails.append(Failure("%s:peel-changes-core" % fn.__name__, "k=%s" % k, case))
                 _check_peel(fn.__name__, W, M, k, core, order, level, case, fails)
 
-    # history: the SAME array object, edited in place (one node cut off), handed in again
+    # history: the caller keeps ONE array object: the deepest requested core first, then a shallower one of the same array (a routine that
+    # peels its argument in place answers every single call correctly and spoils the later ones), then the array is edited in place
+    # (one node cut off) and handed in again. Every oracle works on copies taken before the calls.
     cut = case.get("cut")
     if cut is not None and n > cut and not fails and levels:
         X = gen.layout(W.copy(), case.get("order"))
+        X0 = W.copy()
         kk = levels[len(levels) // 2]
+        ctx.call(fn, X, levels[-1])
+        k1 = levels[0]
+        o = ctx.call(fn, X, k1)
+        if o.ok:
+            want1 = _restrict(X0, cores[k1]) if k1 > 0 else X0
+            if not np.array_equal(np.asarray(o.value[0], dtype=float), want1):
+                fails.append(Failure("%s:wrong-core-of-an-array-used-in-an-earlier-call" % fn.__name__,
+                                     "k=%s after a call with k=%s on the same array object" % (k1, levels[-1]), case))
         ctx.call(fn, X, kk)
         if kind in ("bu", "bd"):
             ctx.call(bct.kcoreness_centrality_bu if kind == "bu" else bct.kcoreness_centrality_bd, X)
         X[cut, :] = 0
         X[:, cut] = 0
-        M2 = oc.contribution_matrix(X, kind)
+        X0[cut, :] = 0
+        X0[:, cut] = 0
+        M2 = oc.contribution_matrix(X0, kind)
         core2 = _core(M2, kk, n)
         o = ctx.call(fn, X, kk)
-        if o.ok:
-            want2 = _restrict(X, core2) if kk > 0 else X
+        if o.ok and not fails:
+            want2 = _restrict(X0, core2) if kk > 0 else X0
             if not np.array_equal(np.asarray(o.value[0], dtype=float), want2):
                 fails.append(Failure("%s:stale-answer-after-in-place-edit" % fn.__name__, "k=%s, node %d cut off in place" % (kk, cut), case))
 
